@@ -111,7 +111,7 @@ CHECKS = {
              "A long-handler family (handler outliving TimerService::stop()'s internal 5 s drain or a drain(300), schedulers running across the teardown; stop / timed-out drain then stop / "
              "pool stop / destructor / wheel stop / wheel drain) checks the same shutdown rules where a fixed internal wait expires.",
         note="A timer's deadline is bounded below by (schedule call time + delay), so earliness is judged conservatively; timers handed to a user dispatcher are out of scope. "
-             "One open known finding (periodic cancel vs already-collected firings).",
+             "One open known finding (a periodic firing already past the service's last look-up when cancel() returns still starts; the broad class was fixed by 8c61823).",
         technique="runtime monitoring: client-boundary timer history + offline checker, clock-read and condvar delay injection, TSan"),
     "C09": dict(
         level="exploration",
